@@ -36,12 +36,21 @@ fn run_real(text: &str) -> RealOutcome {
     }
 }
 
+/// the first n bytes of a text, cut back to a character boundary
+fn head(text: &str, n: usize) -> &str {
+    let mut k = text.len().min(n);
+    while !text.is_char_boundary(k) {
+        k -= 1;
+    }
+    &text[..k]
+}
+
 /// C12 oracle for a diagnostic
 fn check_diag(text: &str, line: &str, column: usize, display: &Result<String, String>) -> Option<(String, String)> {
     let by_nl = text.split('\n').any(|l| l == line);
     let by_any = text.split(|c| matches!(c, '\n' | '\r' | '\u{2028}' | '\u{2029}')).any(|l| l == line);
     if !by_nl && !by_any {
-        return Some(("C12/line-not-in-input".into(), format!("reported line {:?} is not a line of the input {:?}", line, &text[..text.len().min(200)])));
+        return Some(("C12/line-not-in-input".into(), format!("reported line {:?} is not a line of the input {:?}", line, head(text, 200))));
     }
     let n = line.chars().count();
     if column < 1 || column > n + 1 {
@@ -71,7 +80,7 @@ fn differential(text: &str) -> (Option<(String, String)>, Option<(String, String
     let real = run_real(text);
     let rf = parse_syntax(text);
     let mut f12 = None;
-    let short = &text[..text.len().min(300)];
+    let short = head(text, 300);
     // both entry points must give the same verdict and the same structure
     let second = run_real_from_string(text);
     let agree = match (&real, &second) {
@@ -238,7 +247,7 @@ fn tokenize(text: &str) -> Vec<String> {
 
 fn c11_c12(args: &Args, prop: &'static str) -> ! {
     let rule11 = "differential against a hand-written reference recogniser of the documented grammar: (1) every interface name of length<=8 (quick 7) over {a,B,1,-,.}; (2) every type expression of <=6 (quick 5) tokens over {[], [string], ?, int, T, (), (a), (a: int), (, )}; (3) every field/enum-member name of length<=6 (quick 5) over {a,A,1,_}; (4) every member-level token sequence of length<=7 (quick 5) over {method,type,error,Name,(,),->,a: int,comma,NL,comment,SP} after a valid header; (5) every trivia string {SP,TAB,NL,CRLF,CR,U+2028,comment} inserted at every token boundary of 6 valid texts, and every single-token deletion / duplication / adjacent swap of them; (6) all pairs and triples of members over kinds {method,type,error} with equal/distinct names; oracle (through IDL::try_from and, with identical verdict, through the deprecated IDL::from_string): same accept/reject, equal canonical structure (names, kinds per-kind order, fields, types, docs), duplicate errors name exactly the duplicated names; non-trivial = distinct text";
-    let rule12 = "every input of the C11 enumerations that is rejected, plus every prefix of every corpus definition (*.varlink in the repository), every string of length<=5 (quick 4) over a 24-symbol alphabet covering each lexical class (CR, LF, U+2028, U+2029, U+00A0, a 4-byte char, #, keywords, brackets), a line-ending x error-position matrix, and type nesting depth 1..=200 for [], ?[], [string], structs and enums (on the main stack and on a 2 MiB thread): parsing returns (no panic), a Parse error's line is a line of the input and its column lies in 1..=chars(line)+1, every error renders with Display and the rendering contains the line; non-trivial = distinct rejected input";
+    let rule12 = "every input of the C11 enumerations that is rejected, plus every prefix of every corpus definition (*.varlink in the repository), every string of length<=5 (quick 4) over a 24-symbol alphabet covering each lexical class (CR, LF, U+2028, U+2029, U+00A0, a 4-byte char, #, keywords, brackets), a line-ending x error-position matrix, syntax errors at columns up to 200000 (lines longer than any 16-bit width), and type nesting depth 1..=200 for [], ?[], [string], structs and enums (on the main stack and on a 2 MiB thread): parsing returns (no panic), a Parse error's line is a line of the input and its column lies in 1..=chars(line)+1, every error renders with Display and the rendering contains the line; non-trivial = distinct rejected input";
     let mut rep = Report::new(prop, if prop == "C11" { rule11 } else { rule12 });
     let thorough = args.thorough();
     let mut cx = Ctx { rep: &mut rep, args, prop, idx: 0, replay: args.replay_case() };
@@ -419,6 +428,13 @@ fn c11_c12(args: &Args, prop: &'static str) -> ! {
                     cx.rep.count("random_byte_mutations", 1);
                     cx.case("mutation", &text);
                 }
+            }
+        }
+        // long lines: a syntax error far to the right (beyond every 16-bit width) must still be rendered
+        for n in [100usize, 4000, 65533, 65534, 65535, 65536, 70000, 200000] {
+            for lead in ["x", "\u{e9}"] {
+                let text = format!("interface a.b\nmethod A({}: int) -> () !\n", lead.repeat(n));
+                cx.case("long-line", &text);
             }
         }
         // nesting depth
